@@ -8,7 +8,8 @@ depth through non-pointer and pointer fields, with amino's zero-value omission.
 
 `wf env d td v` — the value `v` fits descriptor `td`; `d` bounds the struct
 nesting depth (needed because the decoder's zero values come from a fuelled
-walk of the environment).
+walk of the environment).  Lists: packed lists of non-ByteLength primitives,
+unpacked lists of strings / byte slices / byte arrays / structs / struct pointers.
 -/
 namespace GnoVerif.C20
 
@@ -35,6 +36,27 @@ def isRefTD : TD → Bool
   | .ref _ => true
   | _ => false
 
+def isListTD : TD → Bool
+  | .list _ _ _ => true
+  | _ => false
+
+/-- element descriptors of PACKED lists: primitives whose typ3 is not ByteLength
+(and not the raw-byte element case). -/
+def isPackedElem : TD → Bool
+  | .uvar b => b != 8
+  | .svar _ | .pvar _ | .fix32 _ | .fix64 _ | .bool => true
+  | _ => false
+
+/-- primitive element descriptors of UNPACKED lists (ByteLength typ3). -/
+def isBLElemPrim : TD → Bool
+  | .str | .bytes | .barr _ => true
+  | _ => false
+
+/-- list element descriptors of the fragment: packed primitives, ByteLength
+primitives, or structs (the only ones that may be pointers). -/
+def listElemOK (env : Env) (ptr : Bool) (e : TD) : Bool :=
+  ((isPackedElem e || isBLElemPrim e) && !ptr) || (isRefTD e && isStructKind env e)
+
 mutual
 /-- `v` is a value of descriptor `td` inside the proved fragment. -/
 def wf (env : Env) (d : Nat) (td : TD) (v : Val) : Bool :=
@@ -53,9 +75,18 @@ def wf (env : Env) (d : Nat) (td : TD) (v : Val) : Bool :=
         | d' + 1 => wfFields env d' fs vs
       | _ => false
     | _ => false
+  | .list vs =>
+    match td with
+    | .list ptr ne e => !ne && listElemOK env ptr e && wfElems env d e vs
+    | _ => false
   | _ => false
-/-- field values: non-pointer fields hold a primitive or a struct; pointer fields
-point to structs (`.nil` = nil pointer); no `write_empty`. -/
+/-- list elements (never nil in the fragment). -/
+def wfElems (env : Env) (d : Nat) (e : TD) (vs : List Val) : Bool :=
+  match vs with
+  | [] => true
+  | v :: vs' => wf env d e v && wfElems env d e vs'
+/-- field values: non-pointer fields hold a primitive, a struct or a list; pointer
+fields point to structs (`.nil` = nil pointer); no `write_empty`. -/
 def wfFields (env : Env) (d : Nat) (fs : List FieldD) (vs : List Val) : Bool :=
   match vs, fs with
   | [], [] => true
@@ -63,7 +94,7 @@ def wfFields (env : Env) (d : Nat) (fs : List FieldD) (vs : List Val) : Bool :=
     (!f.writeEmpty &&
       (if f.ptr then isRefTD f.td && isStructKind env f.td &&
           (match v with | .nil => true | _ => wf env d f.td v)
-       else (isPrimTD f.td || isRefTD f.td) && wf env d f.td v)) &&
+       else (isPrimTD f.td || isRefTD f.td || isListTD f.td) && wf env d f.td v)) &&
     wfFields env d fs' vs'
   | _, _ => false
 end
